@@ -208,9 +208,12 @@ class VariantRecord():
         left_insert_end = self.attrs.get('LEFT_INSERT_END')
         right_insert_start = self.attrs.get('RIGHT_INSERT_START')
         right_insert_end = self.attrs.get('RIGHT_INSERT_END')
+        accepter_tx_id = self.attrs.get('ACCEPTER_TRANSCRIPT_ID')
+        accepter_position = self.attrs.get('ACCEPTER_POSITION')
         return hash((self.location.start, self.location.end, self.ref, self.alt,
             self.type, donor_tx_id, start, end, donor_start, donor_end,
-            left_insert_start, left_insert_end, right_insert_start, right_insert_end))
+            left_insert_start, left_insert_end, right_insert_start, right_insert_end,
+            accepter_tx_id, accepter_position))
 
     def __repr__(self) -> str:
         """Return representation of the VEP record."""
